@@ -339,7 +339,104 @@ def _resets(repo, g, path, kind):
     return out
 
 
+def sync_assembly_model(ctx, repo):
+    """The blocking structure's transfer by interpretation (witness scenarios): a GeckoStructure built by its constructor,
+    retry_request given a model socket and a model request handler (sequence / next / data / start, a counted retry()),
+    then segments delivered the way the engine delivers them - the structure's handled-callback once per segment.
+    Observed: what is installed (offset, bytes), how many resends were asked for, whether the handler was retired."""
+    from ..absint import BoundMethod, ClassRef, Interp, Native, Obj, Opaque, PyRaise, Undecided
+    S = "GeckoStructure"
+    cb = repo.method(S, "_on_status_block_received")
+    d0, d1, d2 = bytes(range(0, 39)), bytes(range(100, 139)), bytes(range(200, 222))
+    e0, e1, e2 = bytes(range(50, 89)), bytes(range(150, 189)), bytes(range(230, 252))
+    chain = [(0, 1, d0), (1, 2, d1), (2, 0, d2)]
+    chain2 = [(0, 1, e0), (1, 2, e1), (2, 0, e2)]
+    START = 117
+
+    def run(script, budget=3):
+        """script: list of ('request', start) | ('seg', (seq, next, data)); returns (installs, resends, retired, error)"""
+        it = Interp(repo, max_depth=12)
+        installs, st = [], {"resends": 0, "budget": budget}
+
+        def hook(it_, node, callee, args, kwargs):
+            if isinstance(callee, BoundMethod) and callee.fi.name == INSTALL and isinstance(callee.obj, Obj) and callee.obj.cls is not None and callee.obj.cls.short == S:
+                installs.append((args[0], bytes(args[1]) if isinstance(args[1], (bytes, bytearray)) else args[1]))
+            return NotImplemented
+        it.call_hook = hook
+        sock = Obj(None, {"add_receive_handler": Native(lambda a, k: None, "add_receive_handler"), "queue_send": Native(lambda a, k: None, "queue_send")}, name="socket")
+        try:
+            struct_ = it.apply(ClassRef(repo.cls(S)), [Opaque("on_set_value")], {})
+        except (PyRaise, Undecided) as e:
+            raise AnalysisError(f"{S}(on_set_value) cannot be constructed by interpretation: {e}")
+        handler = None
+        err = None
+        retired = []
+        for op, arg in script:
+            try:
+                it.steps = 0
+                if op == "request":
+                    def retry(a, k):
+                        if st["budget"] == 0:
+                            return False
+                        st["budget"] -= 1
+                        st["resends"] += 1
+                        return True
+                    handler = Obj(None, {"start": arg, "length": 100, "sequence": 0, "next": 0, "data": b"", "_should_remove_handler": False, "should_remove_handler": False,
+                                         "_on_handled": None, "retry": Native(retry, "retry")}, name="request")
+                    it.call(repo.method(S, "retry_request"), struct_, [sock, handler, ("10.0.0.5", 10022)])
+                else:
+                    seq, nxt, data = arg
+                    handler.attrs.update({"sequence": seq, "next": nxt, "data": data})
+                    on_handled = handler.attrs.get("_on_handled")
+                    if on_handled is None:
+                        raise AnalysisError(f"{S}.retry_request does not register a handled-callback on the request")
+                    it.apply(on_handled, [handler, ("10.0.0.5", 10022)], {})
+                    if handler.attrs.get("_should_remove_handler") or handler.attrs.get("should_remove_handler"):
+                        retired.append(len(installs))
+            except PyRaise as e:
+                err = e.what
+                break
+            except Undecided as e:
+                raise AnalysisError(f"{cb.qual} on the model transfer: {e}")
+        return installs, st["resends"], bool(retired), err
+    whole, whole2 = d0 + d1 + d2, e0 + e1 + e2
+    R, SEG = "request", "seg"
+    cases = [
+        ("clean-chain", [(R, START)] + [(SEG, c) for c in chain], ([(START, whole)], 0, True, None), "a complete in-order chain is installed once, at the requested offset, and the request is retired"),
+        ("middle-segment-lost-then-clean", [(R, START), (SEG, chain[0]), (SEG, chain[2])] + [(SEG, c) for c in chain], ([(START, whole)], 1, True, None),
+         "a chain with a gap installs nothing and asks for the transfer again; the repeated chain is installed alone"),
+        ("first-segment-lost-then-clean", [(R, START), (SEG, chain[1]), (SEG, chain[2])] + [(SEG, c) for c in chain], ([(START, whole)], 1, True, None),
+         "a chain missing its first segment installs nothing (not an empty join either) and asks again"),
+        ("duplicate-segment", [(R, START), (SEG, chain[0]), (SEG, chain[0]), (SEG, chain[1]), (SEG, chain[2])], ([(START, whole)], 0, True, None), "a duplicated segment is not installed twice"),
+        ("second-transfer-after-a-complete-one", [(R, START)] + [(SEG, c) for c in chain] + [(R, 0)] + [(SEG, c) for c in chain2], ([(START, whole), (0, whole2)], 0, True, None),
+         "a second transfer installs its own chain at its own offset - nothing of the first one is left in the assembly"),
+        ("gap-then-gap-again-then-clean", [(R, START), (SEG, chain[0]), (SEG, chain[2]), (SEG, chain[1]), (SEG, chain[2])] + [(SEG, c) for c in chain], ([(START, whole)], 2, True, None),
+         "two damaged attempts in a row leave nothing behind for the third"),
+        ("budget-exhausted", [(R, START), (SEG, chain[0]), (SEG, chain[2]), (SEG, chain[0]), (SEG, chain[2])], ([], 1, False, "RuntimeError"), "when retry() refuses, the transfer fails loudly and nothing is installed"),
+    ]
+    for key, script, want, what in cases:
+        budget = 1 if key == "budget-exhausted" else 3
+        installs, resends, retired, err = run(script, budget)
+        w_inst, w_res, w_ret, w_err = want
+        ok = installs == w_inst and resends == w_res and retired == w_ret and ((err is None) == (w_err is None)) and (w_err is None or w_err in (err or ""))
+        shown = [(o, (len(d), d[:1] + b".." + d[-1:]) if isinstance(d, bytes) and d else d) for o, d in installs]
+        ctx.ob("R3", f"{cb.qual}::model::{key}", ok,
+               f"{cb.qual} given {key.replace('-', ' ')}: installs {shown}, {resends} resend(s), retired={retired}, error={err}; expected installs "
+               f"{[(o, len(d)) for o, d in w_inst]} ({'the chain bytes' if w_inst else 'nothing'}), {w_res} resend(s), retired={w_ret}, error={w_err} - {what}",
+               cb.loc, sample={"rule": "R3", "scenario": key, "installed": [str(x) for x in shown], "resends": resends})
+
+
 def sync_assembly(ctx, repo):
+    """the blocking structure's assembly: decided on the model transfer (sync_assembly_model).  The statement-shape rules
+    that used to sit here (one append of handler.data, resets before every resend ...) alarmed on equivalent rewrites
+    (state grouped into a transfer object with a restart() method) and were retired in favour of the model."""
+    sync_assembly_model(ctx, repo)
+    from ..handlermodel import retry_obligations
+    retry_obligations(ctx, repo, "R5")
+    ctx.floor("R1", "GeckoStructure._on_status_block_received install sites", 1, 1)
+
+
+def _sync_assembly_shape(ctx, repo):
     fi = repo.method("GeckoStructure", "_on_status_block_received")
     g = cfg_of(fi)
     key = fi.qual
